@@ -773,6 +773,164 @@ example : (sampleGraph 1 2 3 4).noRawAddr = false ∧
     ifaceV (RObj.mk .List 9 "" "" "" (.cons (.mk .Function 3 "func() { }" "func() { ... }" "" .nil) .nil)) = "[<nil>]" := by
   decide
 
+/-! ## walks over a container whose elements can fail one by one (`json.marshal`, …) -/
+
+/-- **sort first, then seek the first failure** (what `encoding/json` does with the Go map
+    `Map.MarshalJSON` hands it, and `Set.MarshalJSON` with `SortedItems()`): for EVERY error
+    function — any number of failing entries, all with different errors — the reported error
+    is the same for every two visiting orders.  No hypothesis of the kind
+    `first_failure_perm_invariant` needs. -/
+theorem sorted_first_failure_perm_invariant (err : String → Option ε) {vis₁ vis₂ : List String}
+    (h : vis₁.Perm vis₂) :
+    firstFailure err (sortedKeys vis₁) = firstFailure err (sortedKeys vis₂) := by
+  rw [sortedKeys_perm_invariant h]
+
+/-- one map node of `json.Marshal`, as the code does it: for all entries (any number, any
+    outcomes of the values) and every two visiting orders of the Go map the outcome — the JSON
+    text or the error — is the same -/
+theorem mapMarshal_perm_invariant (p q : List Nat) (rs : List (String × MR)) :
+    mapMarshal true p rs = mapMarshal true q rs := by
+  unfold mapMarshal inKeyOrder
+  simp only [if_true]
+  rw [sortedKeys_perm_invariant ((applyPerm_perm p (rs.map (·.1))).trans (applyPerm_perm q (rs.map (·.1))).symm)]
+
+/-- one set node (`json.Marshal(s.SortedItems())`), NaN-free members -/
+theorem setMarshal_perm_invariant (p q : List Nat) (ms : List (HKey × MR))
+    (hn : noNaN (ms.map (·.1)) = true) : setMarshal p ms = setMarshal q ms := by
+  unfold setMarshal
+  have hp := applyPerm_perm p (ms.map (·.1))
+  have hq := applyPerm_perm q (ms.map (·.1))
+  have hnp : noNaN (applyPerm p (ms.map (·.1))) = true := by
+    unfold noNaN at hn ⊢
+    rw [hp.all_eq]; exact hn
+  rw [sortedItems_perm_invariant (hp.trans hq.symm) hnp]
+
+mutual
+  theorem JV.marshal_strip : ∀ t : JV, t.noNaN = true → t.marshalW true = t.strip.marshalW true
+    | .ok _, _ => rfl
+    | .bad _, _ => rfl
+    | .list items, h => by
+      simp only [JV.noNaN] at h
+      simp only [JV.marshalW, JV.strip, JVs.results_strip items h]
+    | .map p es, h => by
+      simp only [JV.noNaN] at h
+      simp only [JV.marshalW, JV.strip, ← JEs.results_strip es h]
+      exact mapMarshal_perm_invariant p [] _
+    | .set p ms, h => by
+      simp only [JV.noNaN] at h
+      simp only [JV.marshalW, JV.strip]
+      exact setMarshal_perm_invariant p [] ms h
+  theorem JVs.results_strip : ∀ ts : JVs, ts.noNaN = true → ts.resultsW true = ts.strip.resultsW true
+    | .nil, _ => rfl
+    | .cons v r, h => by
+      simp only [JVs.noNaN, Bool.and_eq_true] at h
+      simp only [JVs.resultsW, JVs.strip, JV.marshal_strip v h.1, JVs.results_strip r h.2]
+  theorem JEs.results_strip : ∀ es : JEs, es.noNaN = true → es.resultsW true = es.strip.resultsW true
+    | .nil, _ => rfl
+    | .cons k v r, h => by
+      simp only [JEs.noNaN, Bool.and_eq_true] at h
+      simp only [JEs.resultsW, JEs.strip, JV.marshal_strip v h.1, JEs.results_strip r h.2]
+end
+
+/-- **`json.marshal` of a container with several failing elements**: for ALL value trees (maps,
+    sets and lists nested to any depth, any number of entries, any number of elements whose own
+    marshalling fails, each with its own error) and ALL pairs of adversary choices — one
+    visiting order per map and per set node — the outcome of `json.Marshal` as the code does it
+    (the JSON text, or the error text that `risor.Eval` / `try` shows) is the same.  Guard: no
+    set of the tree has a NaN member (finding C05-set-nan-order). -/
+theorem marshal_perm_invariant (t₁ t₂ : JV) (h : t₁.strip = t₂.strip)
+    (hn₁ : t₁.noNaN = true) (hn₂ : t₂.noNaN = true) : t₁.marshal = t₂.marshal := by
+  unfold JV.marshal
+  rw [JV.marshal_strip t₁ hn₁, JV.marshal_strip t₂ hn₂, h]
+
+/-- the full statement for the variant that marshals the values of a map inside a `range` and
+    returns at the first failure … -/
+def marshalRange_full : Prop :=
+  ∀ t₁ t₂ : JV, t₁.strip = t₂.strip → t₁.marshalRange = t₂.marshalRange
+
+/-- … is false: `json.marshal({"f": func() {}, "m": math})` names the function under one
+    visiting order and the module under the other -/
+theorem marshalRange_counterexample : ¬ marshalRange_full := by
+  intro h
+  have := h (.map [0, 1] (.cons "f" (.bad "unable to marshal function") (.cons "m" (.bad "unable to marshal module") .nil)))
+    (.map [1, 0] (.cons "f" (.bad "unable to marshal function") (.cons "m" (.bad "unable to marshal module") .nil))) rfl
+  revert this
+  decide
+
+/-- **why no existing test sees the difference**: on every map whose values all marshal (any
+    number of entries, any visiting order) the range-and-return variant and the code produce the
+    same outcome — the same sorted JSON text -/
+theorem mapMarshal_variants_agree_without_failure (p : List Nat) (rs : List (String × MR))
+    (hok : ∀ r ∈ rs, r.2.errOf = none) : mapMarshal false p rs = mapMarshal true p rs := by
+  unfold mapMarshal seqMarshal
+  simp only [if_true, Bool.false_eq_true, if_false]
+  unfold inKeyOrder inRangeOrder
+  rw [firstFailure_none_of_lookup _ rs hok, firstFailure_none_of_lookup _ rs hok]
+
+/-- the two variants cannot be told apart by a map with at most one failing value, nor by any
+    successful output: here one bad value among three (what every existing test marshals) -/
+example :
+    (JV.map [2, 0, 1] (.cons "b" (.ok "1") (.cons "a" (.bad "E") (.cons "c" (.ok "[2]") .nil)))).marshalRange =
+      (JV.map [2, 0, 1] (.cons "b" (.ok "1") (.cons "a" (.bad "E") (.cons "c" (.ok "[2]") .nil)))).marshal ∧
+    (JV.map [2, 0, 1] (.cons "b" (.ok "1") (.cons "a" (.ok "null") (.cons "c" (.ok "[2]") .nil)))).marshalRange =
+      .out "{\"a\":null,\"b\":1,\"c\":[2]}" := by decide
+
+/-- Impl on the counterexample's map: the error of the smallest failing key, under both orders -/
+example :
+    (JV.map [0, 1] (.cons "m" (.bad "M") (.cons "f" (.bad "F") .nil))).marshal =
+      .err "json: error calling MarshalJSON for type *object.Map: F" ∧
+    (JV.map [1, 0] (.cons "m" (.bad "M") (.cons "f" (.bad "F") .nil))).marshal =
+      .err "json: error calling MarshalJSON for type *object.Map: F" := by decide
+
+set_option maxRecDepth 8192 in
+/-- a nested tree with a set (members +Inf and -Inf fail, -Inf sorts first) inside a list inside a map -/
+example :
+    (JV.map [1, 0] (.cons "z" (.bad "Z") (.cons "k" (.list (.cons (.ok "1") (.cons
+      (.set [1, 0] [(⟨"float", 0, "", 5, false⟩, .err "+Inf"), (⟨"float", 0, "", -5, false⟩, .err "-Inf")]) .nil))) .nil))).marshal =
+      .err (wrapErr "Map" (wrapErr "List" (wrapErr "Set" "-Inf"))) := by decide
+
+/-- **`http.request` headers**: the values filed under one canonical header name do not depend
+    on the visiting order of the `headers` map provided no two of its keys have the same
+    canonical form (then at most one value is filed under each name) -/
+theorem headerValues_perm_invariant (canon : String → String) (name : String)
+    {vis₁ vis₂ : List (String × String)} (h : vis₁.Perm vis₂)
+    (hd : vis₁.Pairwise (fun a b => canon a.1 ≠ canon b.1)) :
+    headerValues canon name vis₁ = headerValues canon name vis₂ := by
+  unfold headerValues inVisitingOrder
+  congr 1
+  have hp : (vis₁.filter (fun kv => canon kv.1 == name)).Perm (vis₂.filter (fun kv => canon kv.1 == name)) :=
+    h.filter _
+  have hsub : (vis₁.filter (fun kv => canon kv.1 == name)).Pairwise (fun a b => canon a.1 ≠ canon b.1) :=
+    hd.sublist List.filter_sublist
+  -- at most one entry survives the filter
+  match h1 : vis₁.filter (fun kv => canon kv.1 == name), hp with
+  | [], hp => rw [h1] at hp ⊢; exact hp.nil_eq
+  | [a], hp => rw [h1] at hp ⊢; exact (List.perm_singleton.1 hp.symm).symm
+  | a :: b :: r, _ =>
+    exfalso
+    rw [h1] at hsub
+    have hab := (List.pairwise_cons.1 hsub).1 b (List.mem_cons_self ..)
+    have ha : a ∈ vis₁.filter (fun kv => canon kv.1 == name) := by rw [h1]; exact List.mem_cons_self ..
+    have hb : b ∈ vis₁.filter (fun kv => canon kv.1 == name) := by rw [h1]; exact List.mem_cons_of_mem _ (List.mem_cons_self ..)
+    have ea := (List.mem_filter.1 ha).2
+    have eb := (List.mem_filter.1 hb).2
+    simp only [beq_iff_eq] at ea eb
+    exact hab (ea.trans eb.symm)
+
+/-- the full statement for `AddHeaders` … -/
+def headerValues_full : Prop :=
+  ∀ (canon : String → String) (name : String) (vis₁ vis₂ : List (String × String)),
+    vis₁.Perm vis₂ → KeysDistinct vis₁ → headerValues canon name vis₁ = headerValues canon name vis₂
+
+/-- … is false (finding C05-http-header-case-order): the keys `a` and `A` are distinct keys of
+    the script's map and both are filed under `A` -/
+theorem headerValues_counterexample : ¬ headerValues_full := by
+  intro h
+  have := h (fun s => if s = "a" then "A" else s) "A" [("a", "1"), ("A", "2")] [("A", "2"), ("a", "1")] (List.Perm.swap _ _ _)
+    (by simp [KeysDistinct])
+  revert this
+  decide
+
 /-! ## non-vacuity -/
 
 /-- a program inside the guard that uses every construct, under two different annotations -/
